@@ -73,6 +73,13 @@ def gen_grid(rng, max_cells):
     c = rng.random()
     if c < 0.3:
         L = [gen_length(rng)] * dim
+    elif c < 0.5 and dim >= 2:
+        # commensurate non-cubic box: the SAME float side length in every direction but different cell counts (the directions
+        # differ only in where the box ends), e.g. 1.0 x 2.0 with 3 x 6 cells
+        side = rng.choice([1.0 / 3.0, 1.0 / 6.0, 1.0 / 7.0, 0.1, 1.0 / 9.0, gen_length(rng) / rng.choice([3, 6, 7, 9, 12])])
+        L = [k * side for k in n]
+        if any(L[i] / n[i] != side for i in range(dim)):
+            L = [gen_length(rng) for _ in range(dim)]
     else:
         L = [gen_length(rng) for _ in range(dim)]
     layers = rng.choice([0, 1, 1, 1, 1, 2, 2, 3])
